@@ -18,7 +18,7 @@ RULE = ("cases = generated object trees (as C08: nested rand_attr/attr sub-objec
         "distinct canonical case")
 ASSUMPTIONS = [
     "on SolveFailure only the pre_randomize events are judged (they run before the solve)",
-    "callbacks do not call randomize themselves",
+    "callbacks of the generated trees do not call randomize themselves; a separate sub-domain makes a nested call from pre_randomize of the top object (on its random sub-object or an unrelated object)",
 ]
 
 
@@ -161,6 +161,123 @@ def run_cyclic(case):
     return [], info
 
 
+
+
+# ------------------------------------------------------------------------------------------------
+# sub-domain: a callback that itself randomizes - pre_randomize of the top object makes a nested call on its random
+# sub-object (or on an unrelated object) before the outer solve; the outer call must still treat the sub-object as random
+NESTED_SRC = """
+@vsc.randobj
+class Hdr(object):
+    def __init__(self, name):
+        self.name = name
+        self.kind = vsc.rand_bit_t(3)
+        self.pad = vsc.rand_bit_t(2)
+    def pre_randomize(self):
+        _pvs_log.append(("pre", self.name))
+    def post_randomize(self):
+        _pvs_log.append(("post", self.name))
+    @vsc.constraint
+    def hc(self):
+        self.kind != %(k0)d
+
+@vsc.randobj
+class Pkt(object):
+    def __init__(self):
+        self.hdr = vsc.rand_attr(Hdr("hdr"))
+        self.other = Hdr("other")
+        self.length = vsc.rand_bit_t(4)
+        self.nest = None
+    def pre_randomize(self):
+        _pvs_log.append(("pre", "pkt"))
+        tgt = {"hdr": self.hdr, "other": self.other}.get(self.nest and self.nest[0])
+        if tgt is not None:
+            if self.nest[1] == "with":
+                with tgt.randomize_with() as it:
+                    it.kind < %(lim)d
+            else:
+                tgt.randomize()
+    def post_randomize(self):
+        _pvs_log.append(("post", "pkt"))
+    @vsc.constraint
+    def pc(self):
+        self.hdr.kind >= %(lo)d
+        self.length == self.hdr.kind + 1
+"""
+
+
+@hyp.composite
+def nested_cases(d):
+    lo = d.randint(2, 5)
+    return {"nested_call": True, "k0": d.randint(0, 7), "lo": lo, "lim": d.randint(1, lo),
+            "calls": [{"nest": d.choice([None, ["hdr", "with"], ["hdr", "plain"], ["other", "with"], ["hdr", "with"]]),
+                       "kind": d.choice(["randomize", "randomize_with"]), "seed": d.seed()} for _ in range(d.randint(2, 4))]}
+
+
+def run_nested(case):
+    from ..core.util import import_vsc
+    import enum as _enum
+    vsc = import_vsc()
+    info = {"returned": 0, "nested_calls": 0}
+    try:
+        src = NESTED_SRC % {"k0": case["k0"], "lo": case["lo"], "lim": case["lim"]}
+    except Exception:
+        return [], info
+    text = src + "# calls: %s" % cjson(case["calls"])
+
+    def Vn(kind, detail, extra):
+        return {"property": PROPERTY, "kind": kind, "detail": detail, "case": case, "text": text + "\n# " + extra}
+    feas = [k for k in range(case["lo"], 8) if k != case["k0"]]
+    # the nested call on hdr itself must be satisfiable, otherwise its SolveFailure (raised from pre_randomize) is expected
+    nested_ok = any(k != case["k0"] for k in range(0, case["lim"]))
+    log = []
+    reset_library()
+    try:
+        ns = {"vsc": vsc, "enum": _enum, "_pvs_log": log}
+        exec(compile(src, "<pvs-c17-nested>", "exec"), ns)
+        pkt = ns["Pkt"]()
+    except Exception as e:
+        reset_library()
+        return [Vn("library_exception", "construction: " + exc_sig(e), repr(e)[:300])], info
+    for ci, call in enumerate(case["calls"]):
+        nest = call.get("nest")
+        if nest is not None and nest[1] == "with" and not nested_ok:
+            continue
+        pkt.nest = nest
+        del log[:]
+        st, exc = flat.do_call(ns, pkt, call["kind"], [] if call["kind"] == "randomize_with" else None, call["seed"])
+        where = "call %d %s(seed=%d) with pre_randomize making %s" % (
+            ci, call["kind"], call["seed"], "no nested call" if nest is None else "a nested %s on %s" % (
+                "randomize_with(kind < %d)" % case["lim"] if nest[1] == "with" else "randomize()", nest[0]))
+        if st == "exc":
+            reset_library()
+            return [Vn("library_exception", "nested call: " + exc.sig, where + " raised %r" % (exc,))], info
+        if st == "sf":
+            if feas:
+                return [Vn("spurious_solve_failure", "outer call after a nested call in pre_randomize", where + ": hdr.kind in %s are solutions" % feas)], info
+            continue
+        if not feas:
+            return [Vn("returned_on_unsat", "outer call", where)], info
+        info["returned"] += 1
+        if nest is not None:
+            info["nested_calls"] += 1
+        k, ln = int(pkt.hdr.kind), int(pkt.length)
+        if k not in feas or ln != k + 1:
+            return [Vn("pre_values_not_seen", "outer result violates the constraints (the sub-object randomized in pre_randomize is random in the outer call)",
+                       where + ": hdr.kind=%d length=%d, feasible kinds %s" % (k, ln, feas))], info
+        cnt = {}
+        for ph, n_ in log:
+            cnt[(ph, n_)] = cnt.get((ph, n_), 0) + 1
+        exp = {("pre", "pkt"): 1, ("post", "pkt"): 1, ("pre", "hdr"): 1, ("post", "hdr"): 1}
+        if nest is not None:
+            exp[("pre", nest[0])] = exp.get(("pre", nest[0]), 0) + 1
+            exp[("post", nest[0])] = exp.get(("post", nest[0]), 0) + 1
+        if cnt != exp:
+            return [Vn("pre_randomize_set" if any(cnt.get(k_, 0) != v for k_, v in exp.items() if k_[0] == "pre") else "post_randomize_set",
+                       "callbacks of the outer and the nested call did not each run once", where + ": ran %s, expected %s" % (sorted(cnt.items()), sorted(exp.items())))], info
+    return [], info
+
+
 def text_of(case):
     src = render.program_source(case["prog"]) + "# top object: %s()" % case["prog"]["top"]
     types, _, _ = tree.flatten(case["prog"])
@@ -181,6 +298,8 @@ def V(kind, detail, case, extra=None):
 def run_case(case):
     if case.get("cyclic"):
         return run_cyclic(case)
+    if case.get("nested_call"):
+        return run_nested(case)
     prog = case["prog"]
     try:
         types, stmts, nodes = tree.flatten(prog)
@@ -276,6 +395,11 @@ def run_case(case):
 
 def body(case, acc):
     vios, info = run_case(case)
+    if case.get("nested_call"):
+        acc.case(case, info.get("nested_calls", 0) > 0, sample=NESTED_SRC % {"k0": case["k0"], "lo": case["lo"], "lim": case["lim"]})
+        acc.label("pre_randomize makes a nested randomize call")
+        acc.label("outer calls that returned after a nested call", info.get("nested_calls", 0))
+        return vios
     if case.get("cyclic"):
         acc.case(case, info.get("returned", 0) > 0 and len(case["ks"]) >= 2, sample=CYCLIC_SRC)
         acc.label("cyclic object graph")
@@ -298,12 +422,14 @@ def body(case, acc):
 
 
 def shards(tier):
-    return [{"i": i, "n": 120 if tier == "quick" else 4000} for i in range(15)] + \
-        [{"kind": "cyclic", "i": 0, "n": 60 if tier == "quick" else 1500}]
+    return [{"i": i, "n": 120 if tier == "quick" else 4000} for i in range(14)] + \
+        [{"kind": "cyclic", "i": 0, "n": 60 if tier == "quick" else 1500},
+         {"kind": "nested", "i": 0, "n": 60 if tier == "quick" else 1500}]
 
 
 def run_shard(spec, seed, tier, acc):
-    hyp.drive(cyclic_cases() if spec.get("kind") == "cyclic" else cases(), body, seed, spec["n"], acc)
+    strat = {"cyclic": cyclic_cases, "nested": nested_cases}.get(spec.get("kind"), cases)()
+    hyp.drive(strat, body, seed, spec["n"], acc)
 
 
 def replay(case):
